@@ -274,6 +274,7 @@ where
                 prod_precs.push(Some(None));
                 prods_rules.push(Some(ridx));
                 actions.push(None);
+                action_spans.push(None);
                 continue;
             } else if implicit_start_rule.as_ref() == Some(astrulename) {
                 // Add the intermediate start rule (handling implicit tokens at the beginning of
@@ -286,6 +287,8 @@ where
                 ]));
                 prod_precs.push(Some(None));
                 prods_rules.push(Some(ridx));
+                actions.push(None);
+                action_spans.push(None);
                 continue;
             } else if implicit_rule.as_ref() == Some(astrulename) {
                 // Add the implicit rule: ~: "IMPLICIT_TOKEN_1" ~ | ... | "IMPLICIT_TOKEN_N" ~ | ;
@@ -296,12 +299,16 @@ where
                     prods.push(Some(vec![Symbol::Token(token_map[t]), Symbol::Rule(ridx)]));
                     prod_precs.push(Some(None));
                     prods_rules.push(Some(ridx));
+                    actions.push(None);
+                    action_spans.push(None);
                 }
                 // Add an empty production
                 implicit_prods.push(PIdx(prods.len().as_()));
                 prods.push(Some(vec![]));
                 prod_precs.push(Some(None));
                 prods_rules.push(Some(ridx));
+                actions.push(None);
+                action_spans.push(None);
                 continue;
             } else {
                 actiontypes[usize::from(ridx)] = ast.rules[astrulename].actiont.clone();
@@ -380,7 +387,15 @@ where
                 .map(|x| x.unwrap().into_boxed_slice())
                 .collect(),
             prod_precs: prod_precs.into_iter().map(Option::unwrap).collect(),
-            prod_spans: ast.prods.iter().map(|prod| prod.prod_span).collect(),
+            // Productions which we have added ourselves (i.e. which aren't in the AST) don't have
+            // a location in the source: give them a zero-length span.
+            prod_spans: ast
+                .prods
+                .iter()
+                .map(|prod| prod.prod_span)
+                .chain(std::iter::repeat(Span::new(0, 0)))
+                .take(actions.len())
+                .collect(),
             implicit_rule: implicit_rule.map(|x| rule_map[&x]),
             actions: actions.into_boxed_slice(),
             action_spans: action_spans.into_boxed_slice(),
